@@ -40,7 +40,7 @@ extern int g_sgn_done;		/* 1 iff the primitive produced a signature */
 
 #define OPS_PRIM_GHOSTS_MAC g_mac_key, g_mac_keylen, g_mac_data, g_mac_len, g_mac_hash, g_mac_out
 #define OPS_PRIM_GHOSTS_VER g_ver_keymat, g_ver_data, g_ver_len, g_ver_hash, g_ver_pss, g_ver_family, g_ver_sig, \
-	g_ver_siglen, g_ver_raw_r, g_ver_raw_s, g_ver_raw_n, g_ver_valid
+	g_ver_siglen, g_ver_raw_r, g_ver_raw_s, g_ver_raw_n, g_ver_valid, g_der_buf, g_der_sig
 #define OPS_PRIM_GHOSTS_SGN g_sgn_keymat, g_sgn_data, g_sgn_len, g_sgn_hash, g_sgn_pss, g_sgn_done
 #define OPS_GHOST_ASSIGNS_SIGN OPS_PRIM_GHOSTS_MAC, OPS_PRIM_GHOSTS_SGN
 #define OPS_GHOST_ASSIGNS OPS_PRIM_GHOSTS_MAC, OPS_PRIM_GHOSTS_SGN, OPS_PRIM_GHOSTS_VER
@@ -107,7 +107,7 @@ __CPROVER_assigns(*out, *len, jwt->error, SPEC_ERRMSG_FRAME(jwt), OPS_PRIM_GHOST
 /* failure is signalled through the return value AND the per-call flag */ \
 __CPROVER_ensures(__CPROVER_return_value != 0 ==> jwt->error != 0) \
 __CPROVER_ensures(__CPROVER_return_value == 0 ==> ( \
-	jwt->error == 0 && *len >= 1 && *len <= 1024 && __CPROVER_is_fresh(*out, 1024) && g_sgn_done == 1 && \
+	jwt->error == 0 && *len >= 1 && *len <= 1024 && __CPROVER_is_fresh(*out, *len) && g_sgn_done == 1 && \
 	OPS_KEYMAT_OF(jwt, g_sgn_keymat) && g_sgn_data == str && g_sgn_len == str_len && \
 	g_sgn_hash == SPEC_HASH_BITS(jwt->alg) && g_sgn_pss == SPEC_IS_PS(jwt->alg) && \
 	/* ES*: fixed-width r||s (RFC 7518 3.4) */ \
